@@ -131,7 +131,7 @@ pub fn gen_number(r: &mut Rng) -> Number {
 pub fn gen_string(r: &mut Rng) -> String {
     if r.chance(1, 2) { return r.pick(KEYS).to_string(); }
     let n = r.below(6);
-    (0..n).map(|_| *r.pick(&['a', 'b', '/', '~', '0', '1', '"', '\\', '\n', 'é', '\u{10348}', ' '])).collect()
+    (0..n).map(|_| *r.pick(&['a', 'b', '/', '~', '0', '1', '"', '\\', '\n', 'é', '\u{10348}', ' ', '\u{ffff}', '\u{e000}', '\u{1f600}'])).collect()
 }
 
 pub fn gen_value(r: &mut Rng, depth: usize) -> Value {
